@@ -66,10 +66,10 @@ def run(ctx):
         for (backend, bt, aff, width, d) in combos:
             seed = ctx.rng.randrange(1000)
             rngn = np.random.default_rng(seed)
-            lo, hi = np.full(d, -2.0), np.full(d, 3.0)
+            lo, hi = np.asarray([-2.0, -1.0][:d]), np.asarray([3.0, 5.0][:d])      # a different interval per coordinate
             data = np.clip(rngn.normal(0.4, 0.8, size=(300, d)), lo + 0.05, hi - 0.05)
-            params = [f"p{i}" for i in range(d)]
-            bounds = {p: (float(lo[i]), float(hi[i])) for i, p in enumerate(params)} if bt else None
+            params = ["w", "b"][:d]                                               # not alphabetical; the dictionary is written in reverse
+            bounds = {p: (float(lo[i]), float(hi[i])) for i, p in reversed(list(enumerate(params)))} if bt else None
             case = {"backend": backend, "bounded": bt, "affine": aff, "dtype": width, "dims": d, "seed": seed}
 
             def make():
@@ -92,6 +92,18 @@ def run(ctx):
                 else:
                     fl2.fit(data, max_epochs=ctx.scale(3, 15), show_progress=False)
                 states.append(("trained", fl2))
+                if aff and (d == 1 or not ctx.quick):
+                    # the same flow object fitted a second time, on data of a different spread (Aspire.fit called again): it is the
+                    # density of the LAST fit that must be normalised and agree with the sampler
+                    fl3 = make()
+                    narrow = lo + (data - lo) * 0.2
+                    if backend == "zuko":
+                        fl3.fit(narrow, n_epochs=2, batch_size=100)
+                        fl3.fit(data, n_epochs=ctx.scale(3, 15), batch_size=100)
+                    else:
+                        fl3.fit(narrow, max_epochs=2, show_progress=False)
+                        fl3.fit(data, max_epochs=ctx.scale(3, 15), show_progress=False)
+                    states.append(("refitted", fl3))
                 path = os.path.join(root, "f.h5")
                 with h5py.File(path, "w") as f:
                     fl2.save(f)
@@ -126,7 +138,7 @@ def run(ctx):
                 if len(ctx.samples) < 3:
                     ctx.sample(dict(c2, max_abs_diff=float(np.max(np.abs(lqv - lpv)))))
                 # quadrature over the support
-                if state != "trained" and ctx.quick:
+                if state not in ("trained", "refitted") and ctx.quick:
                     continue
                 logp = lambda pts: np.asarray(nsutil.to_list(f_.log_prob(pts.astype(width))), float).reshape(-1)
                 if bt:
